@@ -166,6 +166,16 @@ C02(z) ==
   LET vals == OffVals(YearEdgeDates \cup {<<2024, 2, 29>>, <<2023, 2, 28>>}, CalTods, CalOffs)
   IN {Case([op |-> "dt_set", f |-> "doy", v |-> v], a, a) : a \in vals, v \in SetValues("doy")}
      \cup {Case([op |-> "dt_get"], a, a) : a \in vals}
+\* receivers on the first / last representable day whose offset lets a setter push the instant out of the range
+EdgeVals == {Dt(MaxDn, 79200, 0, -82800), Dt(MaxDn, 80000, 5, -3600), Dt(MaxDn, 86399, 999999999, -1), Dt(MaxDn - 1, 80000, 0, -3600),
+             Dt(MinDn, 0, 0, 86399), Dt(MinDn, 100, 0, 3600), Dt(MinDn, 0, 0, 1), Dt(MinDn + 1, 100, 0, 3600)}
+EdgeSetValues(f) == SetValues(f) \cup (CASE f = "day" -> {W(11), W(12), W(13), W(22), W(23), W(24)}
+                                          [] f = "month" -> {W(6), W(7), W(8)}
+                                          [] f = "year" -> {W(5879610), W(-5879610)}
+                                          [] f = "doy" -> {W(174), W(175), W(192), W(193), W(194)}
+                                          [] OTHER -> {})
+EdgeSetCases == IF First THEN UNION {{Case([op |-> "dt_set", f |-> f, v |-> v], a, a) : v \in EdgeSetValues(f)} : a \in EdgeVals, f \in AllSetFields}
+                ELSE {}
 C09(z) ==
   LET offs == {0, 1, -1, 3600, -3600, 19800, -19800, 86399, -86399}
       \* local wall-clock readings chosen so that the UTC date differs from the local date for large offsets
@@ -183,6 +193,7 @@ C09(z) ==
      \cup {Case([op |-> "dt_get"], a, a) : a \in vals}
      \cup {Case([op |-> "dt_as_ymdhms"], a, a) : a \in vals}
      \cup {Case([op |-> "dt_fmt_get"], a, a) : a \in vals}
+     \cup EdgeSetCases
 
 (***************************************************************************)
 \* C10: offsets
@@ -219,6 +230,13 @@ C15(z) ==
      \cup {Case([op |-> "dt_from_ymdhms", y |-> y, m |-> m, d |-> d, h |-> h, mi |-> mi, s |-> s], DateV(0), DateV(0)) :
              y \in {W(-5879611), W(0), W(2024), W(5879611)}, m \in {W(0), W(2), W(6), W(7), W(13)}, d \in {W(0), W(12), W(13), W(22), W(23), W(29), W(30)},
              h \in {W(0), W(23), W(24)}, mi \in {W(59), W(60)}, s \in {W(59), W(60)}}
+     \* setters on receivers in the two partial months at the ends of the range, with and without an offset
+     \cup EdgeSetCases
+     \cup (IF First THEN UNION {{Case([op |-> "date_set", f |-> f, v |-> v], DateV(d), DateV(0)) : v \in EdgeSetValues(f)} :
+                                  d \in {MaxDn, MaxDn - 11, MaxDn - 5, MinDn, MinDn + 7, MinDn + 3}, f \in DateFields}
+                        \cup UNION {{Case([op |-> "dt_set", f |-> f, v |-> v], Dt(d, 45296, 789, 0), DateV(0)) : v \in EdgeSetValues(f)} :
+                                  d \in {MaxDn, MaxDn - 11, MinDn, MinDn + 7}, f \in AllSetFields}
+           ELSE {})
 
 (***************************************************************************)
 \* C05: month / year arithmetic - every day of a window of years x counts x four calls
